@@ -15,6 +15,8 @@ func init() {
 		c.rulesC01(a, la)
 		c.rulesC01x(a, la)
 		c.rulesC01net()
+		c.rulesR3names()
+		c.rulesR3net()
 	})
 	register("C03", propInfo{
 		Explanation: "Decides: (g) the only state/tick writer and the final-handler phase are unreachable for a canceled or check-only transition (dominating guards !IsCheck and result != Canceled in emitEvents); (cs) every call of the writer holds activeStatesMx in W mode, so applying is one exclusive critical section; (entry) every exported Machine method that reaches the queue refuses first on disposing, Backoff() and (appended mutations) queueLen >= QueueLimit with a Canceled return, and any new entry point must be reviewed; (chk) CanAdd/CanRemove only prepend an IsCheck:true mutation, and queue ticks are written only by queueMutation/processQueue/the deadline flush, the processQueue increment being conditional on the mutation carrying a queue tick.",
@@ -26,6 +28,8 @@ func init() {
 			return
 		}
 		c.rulesC03(a, c.lockAnalysis())
+		c.rulesR3net()
+		c.rulesR3resolver()
 		// a vetoed state may be dropped from the target (instead of cancelling
 		// the whole transition) only for an Auto state of an auto mutation:
 		// otherwise a manual mutation is half-applied and still reports Executed
@@ -58,6 +62,7 @@ func init() {
 			c.rulesC04(a, c.lockAnalysis())
 			c.rulesC04dup()
 			c.rulesC04drop()
+			c.rulesR3queue()
 		}
 	})
 	register("C05", propInfo{
@@ -70,6 +75,8 @@ func init() {
 			c.rulesC05(a)
 			c.rulesC05x(a)
 			c.rulesC05topo()
+			c.rulesC05name()
+			c.rulesR3handlers()
 		}
 	})
 	register("C07", propInfo{
@@ -80,6 +87,7 @@ func init() {
 		a := c.core()
 		if a.ok {
 			c.rulesC07(a)
+			c.rulesR3auto()
 		}
 	})
 	register("C14", propInfo{
@@ -106,6 +114,8 @@ func init() {
 			c.rulesC06(a, c.lockAnalysis())
 			c.rulesC06x(a)
 			c.rulesC06reuse()
+			c.rulesR3subs()
+			c.rulesR3handlers()
 		}
 	})
 	register("C13", propInfo{
@@ -133,6 +143,7 @@ func init() {
 			c.rulesC08(a)
 			c.rulesC08ver()
 			c.rulesC08nb()
+			c.rulesR3mark()
 			c.rule("C08.imm", "fault recovery never mutates in place a slice aliasing Machine.activeStates (the old set is needed to decide which states tick during rollback)")
 			c.inPlaceAliasLint("C08.imm", a.fActive, []string{pm}, 5)
 		}
@@ -160,6 +171,7 @@ func init() {
 			c.rulesC02(a)
 			c.rulesC02x(a)
 			c.rulesC02grow()
+			c.rulesR3resolver()
 		}
 	})
 }
@@ -179,6 +191,8 @@ func init() {
 		Trusted:     commonTrusted,
 	}, func(c *Ctx) {
 		c.rulesC10()
+		c.rulesR3hello()
+		c.rulesC09x()
 	})
 }
 
@@ -222,6 +236,7 @@ func init() {
 			c.rulesC02(a)
 			c.rulesC02x(a)
 			c.rulesC02grow()
+			c.rulesR3resolver()
 		}
 	})
 }
